@@ -1,7 +1,7 @@
 #!/usr/bin/env python3
 """Regenerates MANIFEST.json from the table below and validates it."""
 import json, subprocess, sys
-HOOK_COMMITS = ["94c8dd3", "dc6c481", "3ebac5f", "b653d74"]
+HOOK_COMMITS = subprocess.run(["git","-C","/repo","log","--reverse","--format=%h","--grep=^verif hooks"],capture_output=True,text=True).stdout.split()
 # id -> dict(level, text, note, technique, design, engine, thorough(bool))
 CHECKS = {
  "C02": dict(level="fault_enumeration", engine="core_checks", design="§3, §4/C02-C03",
@@ -12,6 +12,10 @@ CHECKS = {
    technique="bounded-exhaustive query histories x exhaustive crash-point enumeration on the real database, differential oracle against the implementation's own before/after dumps",
    text="Same enumeration as C02 (histories over H incl. committing and aborted multi-query transactions and a query failing midway; every prefix of the last step's file-system calls); the full ordered dump of every reopened crash image must equal the live database's own dump taken immediately before the step or immediately after it completed (after rollback completed, for failing steps).",
    note="Images that do not open or read are left to C02. Crash model as C02."),
+ "C19": dict(level="model_checking", engine="core_checks", design="§4/C19",
+   technique="explicit-state breadth-first search with exact state deduplication over the real persistent hash multi-map (scaled minimum capacity) + exhaustive grid of insert/lookup/remove cycle families at the real constants through the public API, with a deterministic probe-step budget as termination oracle",
+   text="(a) 40 families (alias map | index value map) x live-set size {0,1,5,30,59} x remove oldest|newest x distinct | all-colliding-mod-64 keys, each 200 (quick) / 2000 (thorough) insert+lookup+remove cycles through Db queries at the real table constants (capacity 64, load 15/16), every query under a budget of 200000 probe steps; (b) BFS over the real MultiMapStorage<u64,u64> with the minimum capacity overridden to 4 (hook), 5 keys x 2 values, <=5 (quick) / <=7 (thorough) entries, once with the operation profile DbIndex uses and once with the profile MapImpl (alias maps) uses, visited set keyed by a 128-bit hash of the raw storage, every state compared with a BTreeMap model and every operation and lookup under a budget of 10000 probe steps.",
+   note="Termination oracle: exceeding the probe budget (hook counters in the hash-probe, rehash and edge-list loops) is deemed non-termination. (b) runs at scaled capacity: only operation profiles that the database layer really issues are explored, so that a hang reachable only through unused collection methods (MultiMap iter_key over a table without empty slots, reachable via contains_value) is not reported. The BFS is capped by a state count; the evidence reports the fully covered depth."),
  "C32": dict(level="fault_enumeration", engine="core_checks", design="§3, §4/C32",
    technique="bounded-exhaustive query histories x exhaustive single-fault injection at every storage write/resize call of the last step (public StorageData wrapper around the real FileStorage), follow-up step, close and reopen",
    text="Every history of <=1 (quick) / <=2 (thorough) steps over H from 4 base states runs on DbImpl<Faulty(FileStorage)>; for the last step each of its storage write/resize calls (up to ~750 per step) fails once without being performed; the query must return Err, the canonical dump must be unchanged, each follow-up step (1 quick / 6 thorough) must behave exactly as on a never-faulted database, and after close + reopen the follow-up's effect must be present. Every step runs under a probe budget so hangs are reported.",
